@@ -52,9 +52,12 @@ CLAIMED = {
          "concatenated rows, i.e. exactly one link per listed pair, key -> value, in input order; every vertex's link list is its old list followed by "
          "the links of C incident to it in creation order; ends of pre-existing links, universes of unmentioned objects, uids and attributes "
          "of old objects are unchanged. Reading back through neighbors()/find_links is then their own contracts (C04/C09) applied to this heap. "
-         "load_adj_matrix is NOT verified (nested lists of truthy cells, integer indexing): TRUSTED registration only + bounded stand-in on every "
-         "run (explorer op adj_matrix: random square / non-square matrices and wrong side arrays, ValueError-before-touching compared on the "
-         "observable state), labelled bounded and not counted as proved."),
+         "load_adj_matrix is verified the same way (four loops: validation, registration, rows, cells; matrix = list of row objects with "
+         "arbitrary cells whose truthiness is an unconstrained predicate, side array indexed by the enumerate indices with the IndexError paths "
+         "proved infeasible): ValueError exactly when the side array has another length than the matrix or some row is not of that length, with the "
+         "heap unchanged (no universe created, nothing touched); otherwise members = Dedup(side array) and one link per truthy cell, row vertex -> "
+         "column vertex, in row-major order. Both builders are additionally compared with the statement through the public API by explorer "
+         "operations (thorough tier, and whenever an obligation fails)."),
  "C20": ("proof", "12.5/C20", "Two parts. PROVED: the materialisation step - load_adj_dict's contract (see C11) gives, for every adjacency dict, a universe "
          "whose members are exactly the mentioned vertices and in which every created link has exactly the requested class and both ends among "
          "the members; with distinct fresh keys (what randgraph passes) that is `count` vertices, every link of the requested type with both ends "
